@@ -11,6 +11,8 @@ LABELS = {
     'str': ['a', 'b', 'c', 'd', 'e'],
     'float': [0.5, 1.5, 2.5, 3.5, 4.5],
     'perm': [30, 10, 20, 50, 40],      # integer labels whose sort order differs from the list order
+    'wide': ['a', 'bb', 'ccc', 'dddd', 'eeeee'],   # strings of growing width (numpy picks the dtype per batch: <U1, <U3, ...)
+    'mixed': [1, 2, 2.5, 3.5, 4],      # ints first, then floats: a batch of the first labels only is an integer array
 }
 
 
